@@ -509,43 +509,79 @@ def r6(prog, rep):
 
 
 def r7(prog, rep):
+    """wallIntersection, read through its guarded effects (so that guard clauses, flipped arms
+    and nested ifs are one shape): every condition on the way to a store or a raise is
+    classified, then each outcome must stand under the right classification."""
     rep.rule("R7", "wallIntersection: >2 crossings raise; 2 within tolerance collapse to the first; 2 apart raise; none -> None")
     f = prog.module(EQ).funcs.get("Equilibrium.wallIntersection")
     if f is None:
         raise AnalysisError("Equilibrium.wallIntersection not found")
     mod = f.module
-    src = " ".join(mod.text(f.node).split())
-    # structure: if intersects is not None: ... if shape[0] > 2: raise ; elif shape[0] > 1: if not(close): raise ; else None
-    top = [s for s in f.node.body if isinstance(s, ast.If)]
-    ok_top = bool(top) and " ".join(mod.text(top[0].test).split()) == "intersects is not None"
-    rep.ob("R7", "no crossing -> returns None", ok_top and any(isinstance(s, ast.Assign) and isinstance(s.value, ast.Constant) and s.value.value is None for s in top[0].orelse), f.site(), "", key="wi/none")
-    inner = [s for s in (top[0].body if top else []) if isinstance(s, ast.If)]
-    ok = False
-    ok2 = False
-    ok3 = False
-    if inner:
-        i0 = inner[0]
-        def count_above(test, k):
-            """the test says: more than k crossings"""
-            less = as_less(test)
-            if not less:
+    from ..stores import effects
+
+    def count_above(test):
+        """k when the test says: more than k crossings; else None"""
+        less = as_less(test)
+        if not less:
+            return None
+        small, strict, big = less
+        if mod.code(big) in (K("intersects.shape[0]"), K("len(intersects)")) and isinstance(small, ast.Constant) and type(small.value) is int:
+            return small.value if strict else small.value - 1
+        return None
+
+    def near(test):
+        """|dR| < tol and |dZ| < tol between the first and the second crossing"""
+        if not (isinstance(test, ast.BoolOp) and isinstance(test.op, ast.And) and len(test.values) == 2):
+            return False
+        seen = set()
+        for v in test.values:
+            less = as_less(v)
+            if not (less and less[1] and mod.code(less[2]) == "intersect_tolerance"):
                 return False
-            small, strict, big = less
-            return mod.code(big) in (K("intersects.shape[0]"), K("len(intersects)")) and isinstance(small, ast.Constant) and type(small.value) is int \
-                and small.value == (k if strict else k + 1)
-        ok = count_above(i0.test, 2) and any(isinstance(s, ast.Raise) for s in i0.body)
-        if len(i0.orelse) == 1 and isinstance(i0.orelse[0], ast.If):
-            i1 = i0.orelse[0]
-            ok2 = count_above(i1.test, 1)
-            far = [s for s in i1.body if isinstance(s, ast.If)]
-            if far:
-                t = " ".join(mod.text(far[0].test).split())
-                ok3 = (t.startswith("not (") and "intersect.R - second_intersect.R" in t and "intersect.Z - second_intersect.Z" in t
-                       and t.count("< intersect_tolerance") == 2 and " and " in t and any(isinstance(s, ast.Raise) for s in far[0].body))
-    rep.ob("R7", "more than two crossings raise", ok, f.site(), "", key="wi/gt2")
-    rep.ob("R7", "two crossings are compared", ok2, f.site(), "", key="wi/two")
-    rep.ob("R7", "two crossings farther apart than the tolerance (in R or Z) raise; otherwise the first is returned", ok3, f.site(), "", key="wi/apart")
-    first = any(isinstance(s, ast.Assign) and " ".join(mod.text(s).split()) == "intersect = Point2D(*intersects[0, :])" for s in (top[0].body if top else []))
-    rep.ob("R7", "the reported point is the first crossing (R, Z order)", first, f.site(), "", key="wi/first")
+            small = less[0]
+            if not (isinstance(small, ast.Call) and mod.code(small.func) in ("numpy.abs", "abs") and len(small.args) == 1):
+                return False
+            d = mod.code(small.args[0])
+            for c in "RZ":
+                if d in (K("intersect.%s - second_intersect.%s" % (c, c)), K("second_intersect.%s - intersect.%s" % (c, c))):
+                    seen.add(c)
+        return seen == {"R", "Z"}
+
+    def classify(c):
+        if isinstance(c, str):
+            return "loop"
+        neg = False
+        while isinstance(c, ast.UnaryOp) and isinstance(c.op, ast.Not):
+            neg, c = not neg, c.operand
+        t = mod.code(c)
+        if t == K("intersects is not None"):
+            return "none" if neg else "some"
+        if t == K("intersects is None"):
+            return "some" if neg else "none"
+        k = count_above(c)
+        if k is not None:
+            return ("le%d" if neg else "gt%d") % k
+        if near(c):
+            return "far" if neg else "near"
+        return "?" + t[:40]
+
+    effs = effects(f.node, calls=False, inline=False)
+    raises = [frozenset(classify(c) for c in e.conds) for e in effs if e.kind == "raise"]
+    stores = [(frozenset(classify(c) for c in e.conds), e) for e in effs if e.kind == "store" and isinstance(e.target, ast.Name) and e.target.id == "intersect"]
+    known = lambda cs: not any(x.startswith("?") or x == "loop" for x in cs)
+    detail = "raises under %s; stores under %s" % ([sorted(r) for r in raises], [(sorted(c), mod.code(e.value)[:40]) for c, e in stores])
+    undecided = [sorted(r) for r in raises if not known(r)] + [sorted(c) for c, e in stores if not known(c)]
+    und = ("not representable: condition(s) %s not understood; " % undecided) if undecided else ""
+    ok_none = any(cs == {"none"} and isinstance(e.value, ast.Constant) and e.value.value is None for cs, e in stores)
+    rep.ob("R7", "no crossing -> returns None", ok_none, f.site(), und + detail, key="wi/none")
+    ok = any(r == {"some", "gt2"} for r in raises)
+    rep.ob("R7", "more than two crossings raise", ok, f.site(), und + detail, key="wi/gt2")
+    ok2 = any({"some", "le2", "gt1"} <= r for r in raises)
+    rep.ob("R7", "two crossings are compared", ok2, f.site(), und + detail, key="wi/two")
+    ok3 = any(r == {"some", "le2", "gt1", "far"} for r in raises) and len(raises) == 2
+    rep.ob("R7", "two crossings farther apart than the tolerance (in R or Z) raise; otherwise the first is returned", ok3, f.site(), und + detail, key="wi/apart")
+    first = any(cs == {"some"} and mod.code(e.value) == K("Point2D(*intersects[0, :])") for cs, e in stores) and len(stores) == 2
+    rep.ob("R7", "the reported point is the first crossing (R, Z order)", first, f.site(), und + detail, key="wi/first")
     ret = [n for n in walk_own(f.node) if isinstance(n, ast.Return)]
     rep.ob("R7", "single return of the crossing", len(ret) == 1 and mod.text(ret[0].value) == "intersect", f.site(), "", key="wi/return")
+
